@@ -211,6 +211,10 @@ pub fn install_panic_hook() {
             .cloned()
             .or_else(|| info.payload().downcast_ref::<&str>().map(|s| s.to_string()))
             .unwrap_or_default();
+        // innermost frames of the SDK (or of this crate when the harness itself panics)
+        let bt = std::backtrace::Backtrace::force_capture().to_string();
+        let site = crate::stream::site_from_backtrace(&bt);
+        let loc = if site != "unknown" && !loc.starts_with("src/") { format!("{site}({loc})") } else { loc };
         if let Ok(mut g) = LAST_PANIC.lock() {
             *g = format!("{loc}|{msg}");
         }
